@@ -11,6 +11,7 @@ import re
 
 from ..gen import tlbvals as V
 from .. import tracetlb as TR
+from .. import tlbsrc as SRC
 
 SPEC = dict(
     manifest=dict(
@@ -59,6 +60,7 @@ SPEC = dict(
         technique='Lean 4 proof (lawful codec combinators, laws composed by type-class resolution) + differential '
                   'encoder->parser correspondence with the library + path-complete read-trace comparison (recording slice vs '
                   'proved spec trace)'),
+    translators=SRC.translator_entries(),
     design_ref='DESIGN.md §6 C16',
     rule='for every covered type: values generated by the Lean codec generators (every constructor alternative and Maybe/Either '
          'choice at random, integer fields from {0, 1, max, top bit, random}, random bit strings, random small Patricia trees) '
@@ -865,6 +867,10 @@ def run_paths(ctx, P, types):
 
 def run(ctx):
     P = parsers()
+    # source tie: c16_src_* evaluated on generated values (search mode: the values on which a broken obligation is false go to
+    # the oracle first), then translator validation (regenerated Lean reader vs the real deserialize on the same cells)
+    SRC.theorem_check(ctx, check_value, P)
+    SRC.validate(ctx)
     late = ['TransactionDescr', 'Transaction', 'MsgEnvelope', 'InMsg', 'OutMsg', 'AccountBlock', 'InMsgDescr', 'OutMsgDescr', 'ShardAccountBlocks',
             'McBlockExtra', 'McStateExtra', 'BlockExtra', 'Block', 'ShardStateUnsplit', 'ShardState']
     order = sorted(t for t in P if t not in late) + late
